@@ -66,6 +66,26 @@ def concretize(I, v, m, depth=0):
     if isinstance(v, SStr):
         from .smt import _str_lits
 
+        def text_of(t):
+            # structural value of a text term: concatenations, decimal renderings of integers and literals are rebuilt from
+            # the model; any other (uninterpreted) text has no concrete value
+            if z3.is_app(t) and t.decl().name() == "STRCAT":
+                a, b = text_of(t.arg(0)), text_of(t.arg(1))
+                return None if a is None or b is None else a + b
+            if z3.is_app(t) and t.decl().name() == "STR_OF_INT":
+                n = _int(m, t.arg(0), None)
+                return None if n is None else str(n)
+            for lit, lt in _str_lits.items():
+                if lt.eq(t):
+                    return lit
+            return None
+
+        try:
+            built = text_of(v.term)
+            if built is not None:
+                return built
+        except Exception:
+            pass
         try:
             mv = m.eval(v.term, model_completion=True)
             for s, t in _str_lits.items():
